@@ -353,7 +353,7 @@ class SynchronousHyperbandScheduler(
             level=slot_in_rung.level,
             slot_index=slot_in_rung.slot_index,
             trial_id=slot_in_rung.trial_id,
-            metric_val=np.NAN,
+            metric_val=np.nan,
         )
         self._on_result((bracket_id, result_failed))
 
